@@ -1,2 +1,233 @@
-/- Oracle for C04 (stub: replaced when the property's model is built). -/
-def main : IO Unit := pure ()
+/-
+  Oracle for C04.  Reads the harness' stream (see harness/cmd/c04/main.go) and, per case,
+
+  * replays every G line on the abstract simulator protocol `BMV.Hs.Isa.step`, with the schedule
+    read off the real run (an agent "wants" in a tick iff its pc before the step is at an IO
+    instruction of the bond), and prints the model's observables
+        g v=<valid> d=<data index> r=<recv,..> df=<deferred,..> ps=<producer completed> cs=<captured,..>
+  * builds the same net out of `BMV.Rtl.cycle` (one per processor, wired combinationally as
+    Write_verilog_main wires them), runs it for as many clocks, replays it on the abstract hardware
+    protocol `BMV.Hs.Rtl.step` and reports the first disagreement and the delivered streams:
+        RT ok clocks=<n> written=<values> | RT mismatch clock=<t> <what>
+        RR <i> <values captured by consumer i in the hardware net>
+  * does the same with the EMITTED Verilog of every processor (M i H lines) executed by BMV.Vlog:
+        VT ok clocks=<n> | VT mismatch … | VT unavailable … ;  VW <written> ; VR <i> <captured>
+-/
+import BMV.Hs
+import BMV.Rtl
+import BMV.Lines
+import BMV.Vlog.Elab
+open BMV BMV.Bits BMV.Lines BMV.Vlog
+
+def parseMode (s : String) : Mode :=
+  if s = "vn" then .vn else if s = "hy" then .hy else .ha
+
+def parseArch (fs : List String) : Option Arch :=
+  match fs with
+  | [rs, r, n, m, l, o, mode, ws, ops] =>
+    let opl := (ops.drop 4).toString
+    some { rsize := nat! rs, r := nat! r, n := nat! n, m := nat! m, l := nat! l, o := nat! o,
+           mode := parseMode mode, wordSize := nat! ws,
+           ops := if opl = "" then [] else opl.splitOn "," }
+  | _ => none
+
+/-- the emitted Verilog of one processor, elaborated, with the indices of the observed signals -/
+structure Hw where
+  d : Design
+  clk : Nat
+  reset : Nat
+  pc : Nat
+  regs : List Nat
+  auxo : Option Nat
+  oval : Option Nat
+  irecv : Option Nat
+  waitsm : Option Nat
+  inp : Option Nat
+  ival : Option Nat
+  orecv : Option Nat
+deriving Inhabited
+
+def mkHw (a : Arch) (line : String) : R Hw := do
+  let d ← Design.ofString line (some "a0")
+  let clk ← d.sigIdx "clock_signal"
+  let reset ← d.sigIdx "reset_signal"
+  d.checkClock clk
+  let p := "p0_instance."
+  let pc ← d.sigIdx (p ++ "_pc")
+  let regs ← (List.range (2 ^ a.r)).mapM fun k => d.sigIdx (p ++ s!"_r{k}")
+  pure { d, clk, reset, pc, regs, auxo := d.sigIdx? (p ++ "_auxo0"), oval := d.sigIdx? (p ++ "o0_val"),
+         irecv := d.sigIdx? (p ++ "i0_recv"), waitsm := d.sigIdx? (p ++ "waitsm"),
+         inp := d.sigIdx? "i0", ival := d.sigIdx? "i0_valid", orecv := d.sigIdx? "o0_received" }
+
+structure PProc where
+  arch : Arch := { rsize := 8, r := 1, n := 0, m := 0, l := 0, o := 1, ops := [] }
+  prog : List Bits := []
+  io : List Nat := []
+  hw : Option Hw := none
+  hwErr : String := "no H line"
+
+instance : Inhabited PProc := ⟨{}⟩
+
+structure St where
+  k : Nat := 0
+  procs : Array PProc := #[]
+  isa : Hs.Isa.St := {}
+  ticks : Nat := 0
+
+def joinN (l : List Nat) : String := ",".intercalate (l.map toString)
+def joinB (l : List Bool) : String := ",".intercalate (l.map fun b => if b then "1" else "0")
+def nats (s : String) : List Nat := (commaList s).map nat!
+
+def setProc (st : St) (i : Nat) (f : PProc → PProc) : St :=
+  let ps := if i < st.procs.size then st.procs else st.procs ++ Array.replicate (i + 1 - st.procs.size) default
+  { st with procs := ps.modify i f }
+
+/-- destination register of the i2rw at address pc (second field after the opcode) -/
+def destReg (p : PProc) (pc : Nat) : Nat :=
+  match p.prog[pc]? with
+  | some w => getId ((w.drop p.arch.opBits).take p.arch.r)
+  | none => 0
+
+/-- the hardware net: processors' `Rtl.cycle`, combinational wiring; returns the report lines -/
+def rtlNet (st : St) : List String := Id.run do
+  let k := st.k
+  let p0 := st.procs[0]!
+  let mut ps : Array RtlState := (Array.range (k + 1)).map fun i => Rtl.reset (st.procs[i]!).arch
+  let mut hs : Hs.Rtl.St := Hs.Rtl.init k
+  let mut written : List Nat := []
+  let mut got : Array (List Nat) := Array.replicate (k + 1) []
+  for t in [0:st.ticks] do
+    let prod := ps[0]!
+    let valid := prod.oVal.getD 0 false
+    let data := prod.auxo.getD 0 0
+    let received := k > 0 && (List.range k).all fun i => (ps[i + 1]!).iRecv.getD 0 false
+    -- schedule read off the net
+    let wantP := p0.io.contains prod.pc
+    let wantC := (List.range k).map fun i => (st.procs[i + 1]!).io.contains (ps[i + 1]!).pc
+    -- step the net
+    let prod' := Rtl.cycle p0.arch p0.prog prod { outRecv := [received] }
+    let mut ps' := ps.set! 0 prod'
+    for i in [0:k] do
+      let c := ps[i + 1]!
+      let pr := st.procs[i + 1]!
+      let c' := Rtl.cycle pr.arch pr.prog c { inputs := [data], inValid := [valid] }
+      ps' := ps'.set! (i + 1) c'
+      if pr.io.contains c.pc && c'.pc != c.pc then
+        got := got.modify (i + 1) (· ++ [c'.regs.getD (destReg pr c.pc) 0])
+    if wantP && prod'.pc != prod.pc then written := written ++ [prod'.auxo.getD 0 0]
+    -- step the abstract protocol with that schedule
+    let hs' := Hs.Rtl.step hs { p := wantP, c := wantC }
+    -- compare observables
+    let nv := prod'.oVal.getD 0 false
+    let nrecv := (List.range k).map fun i => (ps'[i + 1]!).iRecv.getD 0 false
+    let ngot := (List.range k).map fun i => (got[i + 1]!).length
+    if nv != hs'.oVal || prod'.waitsm != hs'.waitsm || nrecv != hs'.cs.map (·.recv) ||
+       written.length != hs'.sent.length || ngot != hs'.cs.map (·.got.length) then
+      return [s!"RT mismatch clock={t} net: v={nv} w={prod'.waitsm} r={joinB nrecv} sent={written.length} got={joinN ngot}" ++
+              s!" | abstract: v={hs'.oVal} w={hs'.waitsm} r={joinB (hs'.cs.map (·.recv))} sent={hs'.sent.length} got={joinN (hs'.cs.map (·.got.length))}"]
+    ps := ps'
+    hs := hs'
+  return [s!"RT ok clocks={st.ticks} written={joinN written}"] ++
+    (List.range k).map fun i => s!"RR {i + 1} {joinN (got[i + 1]!)}"
+
+def sget (st : State) (o : Option Nat) : Nat := match o with | some i => st.get i | none => 0
+
+/-- the same net built from the EMITTED Verilog of each processor under BMV.Vlog, wired as
+    Write_verilog_main wires a bond (valid/data forward, received = AND backward) -/
+def vlogNet (st : St) : List String := Id.run do
+  let k := st.k
+  let mut hws : Array Hw := #[]
+  for i in [0:k + 1] do
+    match (st.procs[i]!).hw with
+    | some h => hws := hws.push h
+    | none => return [s!"VT unavailable processor {i}: {(st.procs[i]!).hwErr}"]
+  let mut sts : Array State := #[]
+  for i in [0:k + 1] do
+    let h := hws[i]!
+    match (do let s0 ← h.d.init; h.d.cycle h.clk s0 [(h.reset, 1)]) with
+    | .ok s => sts := sts.push s
+    | .error e => return [s!"VT unavailable reset of processor {i}: {e}"]
+  let p0 := st.procs[0]!
+  let mut hs : Hs.Rtl.St := Hs.Rtl.init k
+  let mut written : List Nat := []
+  let mut got : Array (List Nat) := Array.replicate (k + 1) []
+  for t in [0:st.ticks] do
+    let ph := hws[0]!
+    let ps := sts[0]!
+    let valid := sget ps ph.oval
+    let data := sget ps ph.auxo
+    let received := k > 0 && (List.range k).all fun i => sget (sts[i + 1]!) (hws[i + 1]!).irecv != 0
+    let ppc := ps.get ph.pc
+    let wantP := p0.io.contains ppc
+    let wantC := (List.range k).map fun i => (st.procs[i + 1]!).io.contains ((sts[i + 1]!).get (hws[i + 1]!).pc)
+    let pin := [(ph.reset, 0)] ++ (match ph.orecv with | some i => [(i, if received then 1 else 0)] | none => [])
+    let ps' ← match ph.d.cycle ph.clk ps pin with
+      | .ok s => pure s
+      | .error e => return [s!"VT mismatch clock={t} producer evaluation error: {e}"]
+    let mut sts' := sts.set! 0 ps'
+    for i in [0:k] do
+      let h := hws[i + 1]!
+      let c := sts[i + 1]!
+      let pr := st.procs[i + 1]!
+      let cin := [(h.reset, 0)] ++ (match h.inp with | some j => [(j, data)] | none => []) ++
+        (match h.ival with | some j => [(j, valid)] | none => [])
+      let c' ← match h.d.cycle h.clk c cin with
+        | .ok s => pure s
+        | .error e => return [s!"VT mismatch clock={t} consumer {i + 1} evaluation error: {e}"]
+      sts' := sts'.set! (i + 1) c'
+      let cpc := c.get h.pc
+      if pr.io.contains cpc && c'.get h.pc != cpc then
+        got := got.modify (i + 1) (· ++ [c'.get (h.regs.getD (destReg pr cpc) 0)])
+    if wantP && ps'.get ph.pc != ppc then written := written ++ [sget ps' ph.auxo]
+    let hs' := Hs.Rtl.step hs { p := wantP, c := wantC }
+    let nv := sget ps' ph.oval != 0
+    let nw := sget ps' ph.waitsm != 0
+    let nrecv := (List.range k).map fun i => sget (sts'[i + 1]!) (hws[i + 1]!).irecv != 0
+    let ngot := (List.range k).map fun i => (got[i + 1]!).length
+    if nv != hs'.oVal || nw != hs'.waitsm || nrecv != hs'.cs.map (·.recv) ||
+       written.length != hs'.sent.length || ngot != hs'.cs.map (·.got.length) then
+      return [s!"VT mismatch clock={t} emitted: v={nv} w={nw} r={joinB nrecv} sent={written.length} got={joinN ngot}" ++
+              s!" | abstract: v={hs'.oVal} w={hs'.waitsm} r={joinB (hs'.cs.map (·.recv))} sent={hs'.sent.length} got={joinN (hs'.cs.map (·.got.length))}"] ++
+             [s!"VW {joinN written}"] ++ (List.range k).map fun i => s!"VR {i + 1} {joinN (got[i + 1]!)}"
+    sts := sts'
+    hs := hs'
+  return [s!"VT ok clocks={st.ticks}", s!"VW {joinN written}"] ++
+    (List.range k).map fun i => s!"VR {i + 1} {joinN (got[i + 1]!)}"
+
+def step (st : St) (line : String) : St × List String :=
+  if line.startsWith "M " && (line.splitOn " ").getD 2 "" == "H" then
+    let parts := line.splitOn " "
+    let i := nat! (parts.getD 1 "0")
+    let rest := (line.drop (("M " ++ parts.getD 1 "0" ++ " H ").length)).toString
+    if rest.startsWith "err" then (setProc st i fun p => { p with hw := none, hwErr := rest }, [])
+    else match mkHw ((st.procs[i]?.getD default).arch) rest with
+      | .ok h => (setProc st i fun p => { p with hw := some h }, [])
+      | .error e => (setProc st i fun p => { p with hw := none, hwErr := "rejected " ++ e }, [])
+  else
+  let fs := fields line
+  match fs with
+  | ["N", k] => ({ k := nat! k, isa := Hs.Isa.init (nat! k) }, [line])
+  | "M" :: i :: "A" :: rest =>
+    match parseArch rest with
+    | some a => (setProc st (nat! i) fun p => { p with arch := a }, [])
+    | none => (st, ["bad-arch"])
+  | "M" :: _ :: "S" :: _ => (st, [])
+  | "M" :: i :: "P" :: ws => (setProc st (nat! i) fun p => { p with prog := ws.map ofString01 }, [])
+  | ["M", i, "IO", l] => (setProc st (nat! i) fun p => { p with io := nats l }, [])
+  | ["M", i, "IO"] => (setProc st (nat! i) fun p => { p with io := [] }, [])
+  | "T" :: _ => (st, [line])
+  | "G" :: rest =>
+    let pre := nats ((kv rest "pre").getD "")
+    let wantP := (st.procs[0]!).io.contains (pre.getD 0 0)
+    let wantC := (List.range st.k).map fun i => (st.procs[i + 1]!).io.contains (pre.getD (i + 1) 0)
+    let s' := Hs.Isa.step st.isa { p := wantP, c := wantC }
+    let ps := s'.sent.length != st.isa.sent.length
+    let cs := (s'.cs.zip st.isa.cs).map fun (a, b) => a.got.length != b.got.length
+    ({ st with isa := s', ticks := st.ticks + 1 },
+      [s!"g v={if s'.valid then 1 else 0} r={joinB (s'.cs.map (·.recv))} df={joinB (s'.cs.map (·.deferred))} ps={if ps then 1 else 0} cs={joinB cs} n={s'.sent.length}"])
+  | "W" :: _ => (st, [line] ++ rtlNet st ++ vlogNet st)
+  | "R" :: _ => (st, [line])
+  | _ => (st, [])
+
+def main : IO Unit := do
+  let _ ← foldStdin ({} : St) step
